@@ -432,6 +432,31 @@ def coq_wview(c, view):
     return v, coq_pairs(view.get('TFLAG') or [])
 
 
+# ---- cloud/rain: Coq-side content (Model/CloudRain.v) and view literals
+def coq_cloudrain(c):
+    import struct
+    desc = list(struct.unpack('>5I', c['desc'].ljust(20)[:20].encode('ascii')))
+    steps = '; '.join('(CStep %d %d [%s])' % (L.f32_word(float(s['hhmm'])), s['date'],
+                                               '; '.join(C.zll([s['fields'][v][k] for v in c['names']]) for k in range(c['nz'])))
+                      for s in c['steps'])
+    return '{| c_desc := %s; c_nx := %d; c_ny := %d; c_nz := %d; c_nvars := %d; c_steps := [%s] |}' % (
+        C.zlist(desc), c['nx'], c['ny'], c['nz'], len(c['names']), steps)
+
+
+def coq_cview(c, view):
+    if not view:
+        return '{| cv_nx := 0; cv_ny := 0; cv_nz := 0; cv_ntimes := 0; cv_nvars := 0; cv_stamps := []; cv_data := [] |}', '[]'
+    dm = view['dims']
+    keys = list(view['data'].keys())
+    nt = len(view['data'][keys[0]]) if keys else 0
+    data = []
+    for t in range(nt):
+        data.append('[' + '; '.join(C.zll([[w for row in view['data'][v][t][k] for w in row] for v in keys]) for k in range(dm['LAY'])) + ']')
+    v = '{| cv_nx := %d; cv_ny := %d; cv_nz := %d; cv_ntimes := %d; cv_nvars := %d; cv_stamps := []; cv_data := %s |}' % (
+        dm['COL'], dm['ROW'], dm['LAY'], dm['TSTEP'], len(keys), '[' + '; '.join(data) + ']')
+    return v, coq_pairs(view.get('TFLAG') or [])
+
+
 # ----------------------------------------------------------------------------- land use (static file, old style: 11 categories)
 def gen_landuse(rng):
     nx, ny = rng.randint(1, 3), rng.randint(1, 3)
@@ -556,7 +581,11 @@ def gen_cloud_rain(rng, tier='quick', rollover=0.3):
         nx, ny, nz = rng.randint(1, 3), rng.randint(1, 3), rng.randint(1, 3)
         nsteps = rng.randint(1, 3)
         names = CR_FIELDS[rng.choice([3, 5])]
-        if rng.random() < 0.3:
+        r = rng.random()
+        if 0.3 <= r < 0.4:
+            # a 3-field file whose size is also a whole number of 5-field steps (2 cells, 1 layer, 3 steps: 3 * 64 = 2 * 96 bytes)
+            (nx, ny), nz, nsteps, names = rng.choice([(1, 2), (2, 1)]), 1, 3, CR_FIELDS[3]
+        if r < 0.3:
             # a 5-field file whose size is ALSO a whole number of 3-field steps (2 cells, 1 layer, 2 steps: 2 * 96 = 3 * 64
             # bytes): the reader must try the 5-field layout first
             (nx, ny), nz, nsteps, names = rng.choice([(1, 2), (2, 1)]), 1, 2, CR_FIELDS[5]
@@ -568,8 +597,8 @@ def gen_cloud_rain(rng, tier='quick', rollover=0.3):
                               fields={v: [[L.finite_word(rng) for _ in range(nx * ny)] for _ in range(nz)] for v in names}))
         c = dict(fmt='cloud_rain', nx=nx, ny=ny, nz=nz, names=names, steps=steps, lstagger=0,
                  desc=rng.choice(['CAMx_V4.3 CLOUD_RAIN', 'CAMx_V4.2 CLOUD_RAIN', 'CLOUD RAIN FILE']))
-        if not _cr_ambiguous(c):
-            return c
+        if not _cr_ambiguous(c) or rng.random() < 0.5:
+            return c      # ambiguous 3-field files are kept half of the time: known finding region 21
 
 
 _records3 = records
